@@ -1,2 +1,54 @@
-(* C05 -- child listings and ls-subscriptions. (statements to be added) *)
-From WB Require Import Base.Str Model.Key Model.Store Model.Core.
+(* C05 -- Child listings and ls-subscriptions show exactly the keys that exist.
+   Statements only.  Proved: ls is exact, pls is the union over the matching parents, an ls
+   notification reaches exactly the subscribers of its parent.  Not yet proved in Coq (covered by
+   the correspondence and the ls oracle): that after every request the last list an ls-subscriber
+   received equals ls -- this is the partial part of the claim.  Known finding F18b: import sends
+   no ls notification. *)
+From WB Require Import Base.Str Base.Json Model.Key Model.Store Model.Entry Model.Core
+  Proofs.StoreFacts Proofs.TreeInv Proofs.C05Proof.
+
+Theorem C05_ls_exact :
+  forall (V : Type) (n : node V) P, wfn n -> cleann n ->
+    match ls_at n P with
+    | Some l => NoDup l /\ forall x, In x l <-> exists q e, lookup n (P ++ x :: q) = Some e
+    | None => forall q, lookup n (P ++ q) = None
+    end.
+Proof. exact @ls_exact. Qed.
+Print Assumptions C05_ls_exact.
+
+Theorem C05_ls_none_iff_nothing_below :
+  forall (V : Type) (n : node V) P, wfn n -> cleann n -> P <> [] ->
+    (ls_at n P = None <-> forall q, lookup n (P ++ q) = None).
+Proof. exact @ls_none_iff. Qed.
+Print Assumptions C05_ls_none_iff_nothing_below.
+
+Theorem C05_pls_union :
+  forall (V : Type) (n : node V) p x, wfn n ->
+    (In x (collect_children n p) <->
+     exists P m, parent_match p P = true /\ get_node n P = Some m /\ In x (names (nkids m))).
+Proof. exact @collect_children_spec. Qed.
+Print Assumptions C05_pls_union.
+
+Theorem C05_notification_routing :
+  forall s notes i l,
+    In (i, l) (notify_ls s notes) <->
+    exists note sub, In note notes /\ In sub (lssubs s) /\ l_parent sub = fst note /\ i = l_inst sub /\ l = snd note.
+Proof. exact notify_ls_spec. Qed.
+Print Assumptions C05_notification_routing.
+
+(* known finding F18b: an import that adds a child sends nothing to the parent's ls-subscriber *)
+Theorem C05_import_refuted :
+  exists s j, o_ls (snd (do_import s j)) = [] /\ do_ls s (Some [97]) = RErr E_NoSuchValue /\
+              do_ls (fst (do_import s j)) (Some [97]) = RNames [[98]] /\ lssubs s <> [].
+Proof.
+  exists (fst (do_subscribe_ls init 2 1 (Some [97]))),
+         (JObj [([100;97;116;97], JObj [([116], JObj [([97], JObj [([116], JObj [([98], JObj [([118], JNum [49])])])])])])]).
+  vm_compute. repeat split; discriminate.
+Qed.
+Print Assumptions C05_import_refuted.
+
+Example C05_nonvacuous :
+  map o_ls (run init [OSubscribeLs 2 1 (Some [97]); OSet 1 [97;47;98] JNull false; OSet 1 [97;47;99] JNull false;
+                      OPDelete 1 [97;47;63]]) =
+  [[(0, [])]; [(0, [[98]])]; [(0, [[98]; [99]])]; [(0, [[99]]); (0, [])]].
+Proof. vm_compute. reflexivity. Qed.
